@@ -20,6 +20,9 @@ func (r *Run) regexpMatch(fr *frame, recv, subj value) value {
 	if so, ok := recv.(*symRegexp); ok {
 		return r.symRegexpMatch(fr, so, subj)
 	}
+	if p, ok := recv.(*value); ok && p == nil {
+		fr.panicAt(fr.callInstr(), "nil-deref", "MatchString on nil *regexp.Regexp")
+	}
 	re := nativeRegexp(recv)
 	if re == nil {
 		fr.panicAt(fr.callInstr(), "nil-deref", "MatchString on nil *regexp.Regexp")
